@@ -3,12 +3,12 @@ import PoxModel.Model.Revent
 open Pox Pox.Proto Pox.Revent
 
 /-! Driver for C05.  Request:
-  {"variant":{"d24":bool,"d60":bool}, "sources":[{"declared":[et..], "acceptAll":bool, "lazy":bool}, ..], "fuel":n, "ops":[action..],
+  {"variant":{"d24":bool,"d60":bool,"oncePre":bool,"junk":bool}, "sources":[{"declared":[et..], "acceptAll":bool, "lazy":bool}, ..], "fuel":n, "ops":[action..],
    "scripts":[[hid, [{"halt":null|bool, "acts":[[action, guarded]..], "ret":ret}, ..]], ..]}
   action: every action carries "s" = index of the source it is performed on, and
           {"op":"add","et","hid","prio","once","weak":null|o} | {"op":"bind","meths":[[prefix,et]..],"pfx","base","prio","weak"} | {"op":"rmm","pairs":[[et,eid]..]}
         | {"op":"rmh","hid","et":null|t} | {"op":"rme","eid","et"} | {"op":"rmp","et","eid","et2"}
-        | {"op":"clear"} | {"op":"drop","o"} | {"op":"count"} | {"op":"raise","et","form":"inst"|"cls","noerr"}
+        | {"op":"clear"} | {"op":"drop","o"} | {"op":"count"} | {"op":"raise","et","form":"inst"|"cls"|"junkc"|"junko","noerr"}
   ret: {"k":"none"|"false"|"true"|"tup0"|"other"} | {"k":"tup1","h"} | {"k":"tup2","h","r"} | {"k":"exc","e":"revent"|"key"|"attr"|"other"}
 The k-th invocation (k = 0,1,..) of handler `hid` runs the k-th script of its list; beyond the list (or with no list)
 the handler does nothing and returns None.
@@ -19,6 +19,7 @@ def optNatOf (j : J) (k : String) : Except String (Option Nat) := j.optNat k
 
 def parseExc (s : String) : Except String Exc :=
   if s = "revent" then .ok .revent else if s = "key" then .ok .key else if s = "attr" then .ok .attr
+  else if s = "unbound" then .ok .unbound
   else if s = "other" then .ok .other
   else .error s!"bad exception kind {s}"
 
@@ -58,7 +59,8 @@ def parseAction (j : J) : Except String Action := do
   else if op = "count" then pure .count
   else if op = "raise" then
     let f ← j.string "form"
-    let form ← if f = "inst" then pure Form.inst else if f = "cls" then pure Form.cls else .error s!"bad form {f}"
+    let form ← if f = "inst" then pure Form.inst else if f = "cls" then pure Form.cls
+               else if f = "junkc" then pure (Form.junk true) else if f = "junko" then pure (Form.junk false) else .error s!"bad form {f}"
     pure (.raise (← j.nat "et") form (← j.boolean "noerr"))
   else .error s!"bad op {op}"
 
@@ -99,7 +101,7 @@ def mkBeh (tbl : List (Nat × List Script)) : Beh := fun hid log =>
     | none => ⟨none, [], .none⟩
 
 def excName : Exc → String
-  | .revent => "revent" | .key => "key" | .attr => "attr" | .other => "other"
+  | .revent => "revent" | .key => "key" | .attr => "attr" | .unbound => "unbound" | .other => "other"
 
 def retJ : Ret → J
   | .none => .str "none" | .fals => .str "false" | .tru => .str "true" | .tup0 => .str "tup0" | .other => .str "other"
@@ -149,7 +151,7 @@ def handle (j : J) : Except String J := do
     | some s => s
     | none => Src.init [] false          -- never addressed: every source index in the request is < n
   let vj ← j.get "variant"
-  let v : Variant := ⟨(← vj.boolean "d24"), (← vj.boolean "d60")⟩
+  let v : Variant := ⟨(← vj.boolean "d24"), (← vj.boolean "d60"), (← vj.boolean "oncePre"), (← vj.boolean "junk")⟩
   let m := drive (mkBeh tbl) fuel (M.init v srcs ops)
   let idx := List.range n
   pure (J.mk [("finished", .bool m.finished),
